@@ -23,6 +23,7 @@ use zeroize::Zeroize;
 // plumbing
 // ---------------------------------------------------------------------------
 
+#[allow(dead_code)]
 enum Fail {
     Bad,
     Unsup,
